@@ -359,6 +359,38 @@ func c11(c *Ctx) {
 				"the authentication gate itself proposes an entry ("+bad+"), i.e. a request that was not (yet) authenticated changes replicated state — e.g. deleting a session after a number of wrong secrets lets anybody delete any session")
 		}
 	}
+	// ---------- H6: cross-origin access is granted to the configured origins only: the Access-Control-Allow-Origin header is
+	// set under OriginWhitelisted(<origin>) being true
+	if pub != nil && pub.Body() != nil {
+		pi := pub.Info()
+		pg := c.Graph(pub)
+		nSet := 0
+		for _, v := range pg.Nodes() {
+			for _, call := range astx.Calls(v.Node, false) {
+				se, ok := ast.Unparen(call.Fun).(*ast.SelectorExpr)
+				if !ok || se.Sel.Name != "Set" || len(call.Args) != 2 {
+					continue
+				}
+				if s, ok := astx.ConstString(pi, call.Args[0]); !ok || s != "Access-Control-Allow-Origin" {
+					continue
+				}
+				nSet++
+				okW := false
+				for _, f := range pg.FactsAt(v.ID) {
+					if fc, ok := ast.Unparen(f.Expr).(*ast.CallExpr); ok && f.Tag == nil && f.Val {
+						if fn := astx.Callee(pi, fc); fn != nil && fname(fn) == "OriginWhitelisted" {
+							okW = true
+						}
+					}
+				}
+				r.Check(okW, "C11.H6", pub.Name(), "cross-origin access only for configured origins", c.P.Pos(call.Pos()), "dominated by OriginWhitelisted(origin)",
+					"the Access-Control-Allow-Origin header is sent for origins the network configuration does not list: a web page on any site can drive a visitor's session with the session secret it holds")
+			}
+		}
+		if nSet == 0 {
+			r.Observe("C11.H6", pub.Name(), "cross-origin header", "-", "DispatchPublic sets no Access-Control-Allow-Origin header")
+		}
+	}
 	// ---------- H1e: "no such session" and "not yet seen" are verdicts of the replicated state: the gates never produce them
 	// themselves (e.g. from a node-local cache of ids that were answered with 404 once)
 	for _, gate := range []*load.FuncInfo{sess, sop} {
